@@ -104,12 +104,15 @@ type Driver struct {
 	Trace    []string
 	hot      []int
 	Err      error
+	// Answered records, from the driver's side only, who has answered one of the server's own
+	// queries with a matched reply (and under which ID).
+	Answered map[Pair]bool
 	delay    atomic.Int64 // what QueryResendDelay returns, ns
 }
 
 const longDelay = int64(time.Hour)
 
-func NewDriver(r *gen.Rand, enforce bool, block *Blocklist, passive bool) (*Driver, error) {
+func NewDriver(r *gen.Rand, enforce bool, block *Blocklist, passive bool, opts ...func(*dht.ServerConfig)) (*Driver, error) {
 	cfg := dht.ServerConfig{NoSecurity: !enforce, Passive: passive}
 	if block != nil {
 		cfg.IPBlocklist = block
@@ -117,7 +120,10 @@ func NewDriver(r *gen.Rand, enforce bool, block *Blocklist, passive bool) (*Driv
 	if enforce {
 		cfg.PublicIP = r.PublicIPv4()
 	}
-	d := &Driver{R: r, Enforce: enforce, Block: block}
+	for _, o := range opts {
+		o(&cfg)
+	}
+	d := &Driver{R: r, Enforce: enforce, Block: block, Answered: map[Pair]bool{}}
 	// Outbound queries never time out by themselves (the driver cancels them when a scenario wants
 	// a failure), so that no verdict depends on answering within a wall-clock window.
 	d.delay.Store(longDelay)
@@ -351,6 +357,8 @@ func (d *Driver) OutboundAnswered(c Contact, ro bool) Event {
 	res := wait()
 	if res.Err != nil {
 		d.Err = fmt.Errorf("matched reply did not complete the query: %v", res.Err)
+	} else {
+		d.Answered[p] = true
 	}
 	d.quiesce()
 	return ev
@@ -456,6 +464,7 @@ func (d *Driver) QuestionablePing(n dht.VerifNode, answer string) Event {
 		}
 		ev.J = []Pair{{n.Addr, id}}
 		ev.MatchedResponse = true
+		d.Answered[Pair{n.Addr, id}] = true
 		d.log(&ev)
 		d.N.Conn.Inject(benc.Encode(benc.Dict{"y": "r", "t": t, "r": benc.Dict{"id": id}}), ua)
 	} else {
